@@ -1,6 +1,7 @@
 package checks
 
 import (
+	"encoding/json"
 	"fmt"
 	"math/big"
 	"regexp"
@@ -173,12 +174,19 @@ func CheckC20(e *fw.Env, l *Lab) {
 	}
 	nb := 0
 	for pi, pr := range probes {
-		for si, s := range spellings(pr.dom) {
+		sp := spellings(pr.dom)
+		for si := 0; si < 2*len(sp); si++ {
 			if !e.Mine(pi*31 + si) {
 				continue
 			}
+			s := sp[si%len(sp)]
+			ids := []string{s}
+			if si >= len(sp) {
+				// the same spelling inside a batch, after / before a well-formed id of another domain
+				ids = [][]string{{"77777", s}, {s, "77777"}, {"77777", s, "88888"}}[e.R.Intn(3)]
+			}
 			ctx, _ := l.Base.CacheContext()
-			err := PauseCrossChains(w, ctx, ProtoName[pr.proto], []string{s})
+			err := PauseCrossChains(w, ctx, ProtoName[pr.proto], ids)
 			e.Res.Eval()
 			nb++
 			if err != nil {
@@ -192,20 +200,21 @@ func CheckC20(e *fw.Env, l *Lab) {
 			t := l.NewTransfer(e.R, pr.dest.Denom, big.NewInt(1_000_000), &spec.Spec{Route: pr.dest.Make(e.R)})
 			o := run.Do(w, ctx, t, run.Mode{Kind: "H"})
 			Universal(e.Res, o)
-			wtn := map[string]any{"protocol": ProtoName[pr.proto], "paused_counterparty": s, "transfer_domain": pr.dom, "outcome": o.Res.String()}
+			wtn := map[string]any{"protocol": ProtoName[pr.proto], "paused_counterparty": s, "batch": ids, "transfer_domain": pr.dom, "outcome": o.Res.String()}
 			if o.Success() {
 				e.Res.Violate(fw.Violation{Property: "C20", Kind: "accepted-identifier-does-not-cover-its-domain", Tags: map[string]string{"spelling": cpClass(s)},
-					Detail:  fmt.Sprintf("PauseCrossChains(%s, [%q]) succeeded, yet a transfer to domain %d is executed", ProtoName[pr.proto], s, pr.dom),
+					Detail:  fmt.Sprintf("PauseCrossChains(%s, %q) succeeded, yet a transfer to domain %d is executed", ProtoName[pr.proto], ids, pr.dom),
 					Witness: wtn})
 			} else if s != pr.dest.Cp {
 				// a second accepted spelling of the same destination
 				e.Res.Violate(fw.Violation{Property: "C20", Kind: "two-accepted-identifiers-one-destination", Tags: map[string]string{"spelling": cpClass(s)},
 					Detail: fmt.Sprintf("%q and %q both pause domain %d", s, pr.dest.Cp, pr.dom), Witness: wtn})
 			}
-			e.Res.Sig("behav|%d|%s|accepted|%s", pr.proto, cpClass(s), outcomeClass(o))
+			e.Res.Sig("behav|%d|%s|batch=%d|accepted|%s", pr.proto, cpClass(s), len(ids), outcomeClass(o))
 		}
 	}
 	e.Res.CountN("behavioural-probes", nb)
+	genesisIdentifiersC20(e, l)
 	if e.Shard == 0 {
 		e.Res.Sample(map[string]any{"direct_strings": strs[:12], "behavioural_spellings_of_domain_5": spellings(5)})
 	}
@@ -236,4 +245,53 @@ func cpClass(s string) string {
 		return "overlong"
 	}
 	return "other"
+}
+
+// genesisIdentifiersC20: every position of the genesis document that carries a cross-chain id
+// accepts only the canonical form for CCTP / Hyperlane.
+func genesisIdentifiersC20(e *fw.Env, l *Lab) {
+	positions := []string{"paused", "amount-source", "amount-destination", "count-source", "count-destination"}
+	spell := []string{"7", "007", "+7", "-7", " 7", "7 ", "0x7", "7.0", "4294967296", "4294967303", "channel-7", "", "4294967295", "0"}
+	i := 0
+	for _, pos := range positions {
+		for _, proto := range []string{"PROTOCOL_CCTP", "PROTOCOL_HYPERLANE"} {
+			for _, s := range spell {
+				i++
+				if !e.Mine(i) {
+					continue
+				}
+				sj, _ := json.Marshal(s)
+				id := fmt.Sprintf(`{"protocol_id":"%s","counterparty_id":%s}`, proto, sj)
+				ok := `{"protocol_id":"PROTOCOL_IBC","counterparty_id":"channel-0"}`
+				okd := `{"protocol_id":"PROTOCOL_INTERNAL","counterparty_id":"noble"}`
+				paused, amounts, counts := "", "", ""
+				switch pos {
+				case "paused":
+					paused = id
+				case "amount-source":
+					amounts = fmt.Sprintf(`{"source_id":%s,"destination_id":%s,"denom":"uusdc","amount_dispatched":{"incoming":"5","outgoing":"4"}}`, id, okd)
+				case "amount-destination":
+					amounts = fmt.Sprintf(`{"source_id":%s,"destination_id":%s,"denom":"uusdc","amount_dispatched":{"incoming":"5","outgoing":"4"}}`, ok, id)
+				case "count-source":
+					counts = fmt.Sprintf(`{"source_id":%s,"destination_id":%s,"count":"3"}`, id, okd)
+				case "count-destination":
+					counts = fmt.Sprintf(`{"source_id":%s,"destination_id":%s,"count":"3"}`, ok, id)
+				}
+				doc := fmt.Sprintf(`{"adapter_genesis":{"params":{"max_passthrough_payload_size":0}},"dispatcher_genesis":{"dispatched_amounts":[%s],"dispatched_counts":[%s]},"forwarder_genesis":{"paused_protocol_ids":[],"paused_cross_chain_ids":[%s]},"executor_genesis":{"paused_action_ids":[]}}`, amounts, counts, paused)
+				e.Res.Eval()
+				err := validateOrbiter(l.W, []byte(doc))
+				canon := isCanonicalDomain(s)
+				switch {
+				case err == nil && !canon:
+					e.Res.Violate(fw.Violation{Property: "C20", Kind: "non-canonical-domain-accepted", Tags: map[string]string{"via": "genesis:" + pos},
+						Detail:  fmt.Sprintf("genesis validation accepts counterparty %q for %s at %s", s, proto, pos),
+						Witness: map[string]any{"doc": doc}})
+				case err != nil && canon:
+					e.Res.Violate(fw.Violation{Property: "C20", Kind: "canonical-identifier-refused", Tags: map[string]string{"via": "genesis:" + pos},
+						Detail: fmt.Sprintf("genesis validation refuses counterparty %q for %s at %s: %v", s, proto, pos, err), Witness: map[string]any{"doc": doc}})
+				}
+				e.Res.Sig("genesis-id|%s|%s|%s|accepted=%v", pos, proto, cpClass(s), err == nil)
+			}
+		}
+	}
 }
